@@ -23,17 +23,6 @@ def quit_history(r, i):
     return h
 
 
-def env_term(script):
-    ch = []
-    for b in script["children"]:
-        se = f"(Some {b['self_exit']})" if b.get("self_exit") is not None else "None"
-        rs = coq_list([f"({s}, {('(Some %d)' % d) if d is not None else 'None'})" for s, d in b.get("react", [])])
-        df = f"(Some {b['default']})" if b.get("default") is not None else "None"
-        ch.append(f"({se}, {rs}, {df}, {'true' if b.get('ignore_all') else 'false'})")
-    nl = lambda key: coq_list([f"{x}%nat" for x in script.get(key, [])])
-    return f"(mk_env {coq_list(ch)} {nl('spawn_fail')} {nl('signal_fail')} {nl('kill_fail')})"
-
-
 # ------------------------------------------------------------------ part B: whole Watchexec instance, real processes
 
 CHILD = [  # (label, simchild script, model child tuple)
